@@ -60,8 +60,17 @@ theorem readTextLines_header (ar : Arith) (s : RState) (k : Nat) (rest : List Tx
 
 /-! ### the whole text -/
 
-theorem toCsv_wf (tp : TextParam) (hf : FloatOK tp) (o : Opts) (files : List (List Message)) : ∀ l ∈ toCsv o files, LineWF tp l :=
-  writeMesgs_wf tp hf o _ _
+/-- the float pieces of the CSV of these files -/
+def csvAtoms (o : Opts) (files : List (List Message)) : Atom → Prop := fun a => a ∈ linesAtoms (toCsv o files)
+
+theorem csvAtoms_mem {o : Opts} {files : List (List Message)} {l : Line} (hl : l ∈ toCsv o files) {a : Atom} (ha : a ∈ lineAtoms l) :
+    csvAtoms o files a := by
+  unfold csvAtoms linesAtoms
+  exact List.mem_flatMap.mpr ⟨l, hl, ha⟩
+
+theorem toCsv_wf (tp : TextParam) (o : Opts) (files : List (List Message)) (hf : FloatOK tp (csvAtoms o files)) :
+    ∀ l ∈ toCsv o files, LineWF tp l :=
+  writeMesgs_wf tp o _ _ (fun l hl a ha => hf.chars a (csvAtoms_mem hl ha))
 
 /-- the padding of a line: nothing with the trim option, up to the header's cell count without -/
 def padOf (o : Opts) (ls : List Line) (l : Line) : Nat := if o.trim then 0 else maxFields ls - nTriples l
@@ -99,10 +108,11 @@ theorem csvText_eq (tp : TextParam) (o : Opts) (ls : List Line) (hwf : ∀ l ∈
 
 /-- **every line of the CSV has as many cells as the header, as `encoding/csv` counts them** (without the trim option):
 3 + 3·(the largest number of fields of a message) — for ANY chain of files: quotes, separators and all -/
-theorem columns_text (tp : TextParam) (hf : FloatOK tp) (o : Opts) (ht : o.trim = false) (files : List (List Message)) :
+theorem columns_text (tp : TextParam) (o : Opts) (ht : o.trim = false) (files : List (List Message))
+    (hf : FloatOK tp (csvAtoms o files)) :
     ∃ lines, csvText tp o (toCsv o files) = some lines ∧
       ∀ x ∈ lines, ∃ cells, csvRecord x = .record cells ∧ cells.length = 3 + 3 * maxFields (toCsv o files) := by
-  have hwf := toCsv_wf tp hf o files
+  have hwf := toCsv_wf tp o files hf
   refine ⟨_, csvText_eq tp o _ hwf, ?_⟩
   intro x hx
   rcases List.mem_cons.mp hx with rfl | hx
@@ -121,11 +131,11 @@ theorem columns_text (tp : TextParam) (hf : FloatOK tp) (o : Opts) (ht : o.trim 
       omega
 
 /-- **FIT → CSV TEXT → FIT for every chain of files within `CsvUnambiguous`** -/
-theorem roundtrip_text (tp : TextParam) (hf : FloatOK tp) (o : Opts) (files : List (List Message)) (hne : files ≠ [])
-    (h : csvUnambiguousB o files = true) :
+theorem roundtrip_text (tp : TextParam) (o : Opts) (files : List (List Message)) (hf : FloatOK tp (csvAtoms o files))
+    (hne : files ≠ []) (h : csvUnambiguousB o files = true) :
     ∃ lines, csvText tp o (toCsv o files) = some lines ∧
       fromCsvTextPre (Arith.so.withText tp) lines = .ok ⟨expected o files, files.length⟩ := by
-  have hwf := toCsv_wf tp hf o files
+  have hwf := toCsv_wf tp o files hf
   refine ⟨_, csvText_eq tp o _ hwf, ?_⟩
   have hrt := roundtrip_full o files hne h
   unfold fromCsvPre at hrt
@@ -136,7 +146,7 @@ theorem roundtrip_text (tp : TextParam) (hf : FloatOK tp) (o : Opts) (files : Li
   | unmodelled => rw [hr] at hrt; cases hrt
   | ok s =>
     rw [hr] at hrt
-    rw [readTextLines_sim tp hf _ _ {} s hwf hr]
+    rw [readTextLines_sim tp _ hf _ _ {} s hwf (fun l hl a ha => csvAtoms_mem hl ha) hr]
     exact hrt
 
 end Fit.Csv
